@@ -555,6 +555,12 @@ class SkyCoordTableCoordinate(BaseTableCoordinate):
                                    mesh=True,
                                    names=self.names,
                                    physical_types=self.physical_types)
+            # Express the item relative to the start of the components as they are now
+            # (negative and out-of-range values resolved) so that it can be added to the
+            # slice that is already applied.
+            lengths = [len(comp) for comp in self._sliced_components]
+            sane_item = [slice(*s.indices(n)[:2]) if isinstance(s, slice) else int(range(n)[s])
+                         for s, n in zip(sane_item, lengths)]
             new_coord._slice = [self.combine_slices(old, new) for new, old in zip(sane_item, self._slice)]
             if all([isinstance(s, Integral) for s in new_coord._slice]):
                 # Here we rebuild the SkyCoord with the slice applied to the individual components.
